@@ -1711,6 +1711,25 @@ package graphql
 //@   loop 2 ensures (has(argASTMap, argDef.PrivateName) && argASTMap[argDef.PrivateName] != nil) || !typeis(argDef.Type, "*graphql.NonNull") ==> calls("reportError") == atloop(2, calls("reportError"))
 //@   at call reportError: assert arg0 == context && len(arg2) == 1 && typeis(arg2[0], "*ast.Directive") && as(arg2[0], "*ast.Directive") == directiveAST
 
+// FieldsOnCorrectType: a field whose parent type is known is reported exactly when that type defines no such
+// field, located at the field; the verdict returned never skips the subtree.
+//@ func getSuggestedTypeNames
+//@   trusted
+//@   assigns nothing
+//@ func UndefinedFieldMessage
+//@   trusted
+//@   assigns nothing
+//@ func FieldsOnCorrectTypeRule$1
+//@   props C02 C18
+//@   nosafety
+//@   ensures !typeis(p.Node, "*ast.Field") ==> calls("reportError") == 0 && calls("FieldDef") == 0
+//@   ensures calls("ParentType") == 1 && isnil(lastresult("ParentType")) ==> calls("reportError") == 0 && calls("FieldDef") == 0
+//@   ensures calls("FieldDef") == 1 && lastresult("FieldDef") == nil ==> calls("reportError") == 1
+//@   ensures calls("FieldDef") == 1 && lastresult("FieldDef") != nil ==> calls("reportError") == 0
+//@   ensures calls("FieldDef") == 0 ==> calls("reportError") == 0
+//@   at call reportError: assert arg0 == context && len(arg2) == 1 && typeis(arg2[0], "*ast.Field") && as(arg2[0], "*ast.Field") == node
+//@   ensures result0 == visitor.ActionNoChange
+
 // VariablesAreInputTypes: a variable definition is reported exactly when its type is known and not an input
 // type; the error is located at the type reference.
 //@ func VariablesAreInputTypesRule$1
